@@ -116,7 +116,9 @@ func c16Mutate(rt *rapid.T, w *l1World, req *model.PushPullMessage, c *l1Client,
 			p.Operations[i], p.Operations[j] = p.Operations[j], p.Operations[i]
 		}
 	case "ops-truncated-tx":
-		tx := &model.Operation{ID: &model.OperationID{CUID: req.Cuid, Seq: p.CheckPoint.GetCseq() + 1, Lamport: 999}, OpType: model.TypeOfOperation_TRANSACTION, Body: []byte(`{"Tag":"t","NumOfOps":5}`)}
+		tx := &model.Operation{ID: &model.OperationID{CUID: req.Cuid, Seq: p.CheckPoint.GetCseq() + 1, Lamport: 999}, OpType: model.TypeOfOperation_TRANSACTION,
+			// a next-in-sequence header that announces more than follows, nothing, less than nothing, or a great many
+			Body: []byte(fmt.Sprintf(`{"Tag":"t","NumOfOps":%d}`, rapid.SampledFrom([]int{5, 0, -1, 2, 2147483647, -2147483648}).Draw(rt, "announced")))}
 		p.Operations = append(p.Operations, tx)
 	case "ops-other-kind":
 		p.Operations = otherOps()
